@@ -6,6 +6,7 @@ import AisVerif.Lemmas.Inv
 import AisVerif.Lemmas.CleanSentence
 import AisVerif.Lemmas.Unarmor
 import AisVerif.Lemmas.Machine
+import AisVerif.Lemmas.Render
 
 namespace AisVerif.C02
 open AisVerif Spec
@@ -169,5 +170,38 @@ theorem checksum_error_only_on_mismatch (cfg : Cfg) (st : PState) (line : Bytes)
         show decVal b.fill ≤ 5
         omega
       exact stepSentence_not_cks cfg st s dec e f hf h
+
+
+/-! ### Every body, all 256 transmitted values -/
+
+/-- **For every well-formed body and every transmitted checksum value `c` (as two hex digits):** the line
+    `!<body>*<c>` is processed as its sentence exactly when `c` is the XOR of the body's bytes; for each
+    of the other 255 values the answer is the checksum error carrying both values, and the parser state
+    is untouched — whatever the state, with decoding on or off, in every build. -/
+theorem rendered_checksum_gate (cfg : Cfg) (st : PState) (dec : Bool) (b : Body) (hwf : b.WF cfg)
+    (hs : (0x2A : UInt8) ∉ b.render) (c : Fin 256) :
+    (c.val = (xorAll b.render).toNat →
+      step cfg st (renderLineWith b c.val) dec = stepSentence cfg st b.sentence dec) ∧
+    (c.val ≠ (xorAll b.render).toNat →
+      step cfg st (renderLineWith b c.val) dec = (st, err (.checksum c.val (xorAll b.render).toNat))) := by
+  have hparse := parse_renderLineWith cfg b hwf hs c
+  constructor
+  · intro h
+    unfold step
+    rw [hparse]
+    simp only []
+    unfold checkChecksum
+    rw [if_neg (by simp [h])]
+  · intro h
+    unfold step
+    rw [hparse]
+    simp only []
+    unfold checkChecksum
+    rw [if_pos h]
+
+/-- Exactly one of the 256 values is accepted. -/
+theorem exactly_one_value_accepted (b : Body) :
+    ∃ c : Fin 256, c.val = (xorAll b.render).toNat ∧ ∀ d : Fin 256, d.val = (xorAll b.render).toNat → d = c :=
+  ⟨⟨(xorAll b.render).toNat, UInt8.toNat_lt _⟩, rfl, fun d hd => Fin.ext hd⟩
 
 end AisVerif.C02
